@@ -127,6 +127,9 @@ def register(R, P):
             "EDGES:: all(has_edge(old(self[-1])[0].model.tracegraph, a, b) == (old(has_edge(self[-1][0].model.tracegraph, a, b)) and a != old(self[-1]) and b != old(self[-1])) for a in every('node') for b in every('node'))",
             "GWF:: GWF(old(self[-1])[0].model.tracegraph)",
             "REFSTACK-PREFIX:: len(self.refstack) <= old(len(self.refstack)) and all(self.refstack[j] == old(self.refstack[j]) for j in range(len(self.refstack)))",
+            # C02: only the pending attribute reads of the FAILED frame are dropped; those of the frames still executing
+            # (e.g. a caller that handles the error) stay, to be recorded when they complete
+            "REFSTACK-DRAINED:: all(old(self.refstack[j][0]) == self.counter for j in range(len(self.refstack), old(len(self.refstack))))",
             "NO-PENDING:: all(self.refstack[j][0] < self.counter for j in range(len(self.refstack)))",
             "REFGRAPH:: not has_node(old(self[-1])[0].model.refgraph, old(self[-1]))",
         ],
